@@ -316,7 +316,7 @@ def main(argv=None):
         return 0
 
     specs = list(mod.plan(tier, seed))
-    if witness_files(prop):
+    if witness_files(prop) and not os.environ.get("VERIF_NO_WITNESSES"):
         specs.append({"kind": "__witnesses__"})
     timeout = getattr(mod, "SHARD_TIMEOUT", {"quick": 600, "thorough": 3600})[tier]
     results = run_shards(prop, tier, seed, specs, args.jobs, timeout)
